@@ -234,6 +234,28 @@ Example ex_released_waiter_later :
   enabled (exec ex_rw_scripts (ex_rw_sched ++ [1;1;1; 2;2;2;2;2;2; 0; 1])) 3 = true.
 Proof. vm_compute. reflexivity. Qed.
 
+(* Different keys never wait for each other, arrival side: whatever goes on under other keys (any number of
+   them busy, any number of waiters), a caller that reaches the lookup while no thread is inside an execution
+   for ITS (group, key) registers as the leader at once - it does not wait.  (With
+   keys_independent_blocked_only_behind_own_key: a caller waits iff an execution of its own key is in
+   progress.  Pinned.striped_locks_block_another_key_refuted; the check's many-keys family.) *)
+Theorem arrival_on_idle_key_leads : forall scripts sched t th o,
+  let s := exec scripts sched in
+  nth_error (threads s) t = Some th -> cur_op th = Some o -> tpc th = PCalled ->
+  (forall t' th' o', nth_error (threads s) t' = Some th' -> cur_op th' = Some o' ->
+                     ogrp o' = ogrp o -> okey o' = okey o -> in_execution (tpc th') = false) ->
+  exists s' th2 c, step s t = Some s' /\ nth_error (threads s') t = Some th2 /\ tpc th2 = PLead c.
+Proof. exact arrival_on_idle_key_leads_l. Qed.
+Print Assumptions arrival_on_idle_key_leads.
+
+(* hypotheses met: keys 1 and 2 are busy (each with a waiter), thread 4 arrives on key 3 *)
+Example ex_arrival_idle_key :
+  let s := exec [[mkOp GLC 1 101 0]; [mkOp GLC 2 201 0]; [mkOp GLC 2 301 0]; [mkOp GLC 1 401 0]; [mkOp GLC 3 501 0]]
+                [0;0;0; 1;1;1; 2;2; 3;3; 4] in
+  option_map tpc (nth_error (threads s) 4) = Some PCalled /\ calls s GLC 3 = None /\
+  running GLC 1 s = 1 /\ running GLC 2 s = 1.
+Proof. vm_compute. repeat split; reflexivity. Qed.
+
 (* Generation of a call entry.  The epilogue deletes BY KEY; that is the deletion of the call's OWN
    entry: whenever a thread is about to delete (pc PFnDone c) the entry under its key is its own
    object c, led by this very call and not released.  An entry of the map always belongs to the
